@@ -878,6 +878,54 @@ def tie(ctx, spec, texts, configs, judge_jobs_of):
         handle_results(ctx, spec, res, 'tie-difference')
 
 
+def slot_typing(ctx, spec, results):
+    """The hypothesis `wfVal` of the `*_stream_typed` theorems (Props/C01, C02): every tree the check printed — the
+    parsed original and the tree read back from the output — respects the slot typing `es5Slot` (lean
+    Model/TokenAdj.lean), evaluated by `drv_rt wf <tree>`.  A failure is a broken obligation; the judge has already
+    run on the same case (a judge failure there is reported as a violation by `handle_results`)."""
+    import shrink
+    if not getattr(ctx, 'drivers_ok', True):
+        ctx.obligation('slot typing holds on every parsed tree', False, 'tie', 'drivers not built')
+        return
+    drv = ctx.driver('drv_rt')
+    seen = {}
+    for r in results:
+        if not r.parsed or r.tree is None:
+            continue
+        seen.setdefault((r.text, r.wc), r.tree)
+        t2 = getattr(r, 'tree2', None)
+        if t2 is not None and r.out is not None:
+            seen.setdefault((r.out, r.wc), t2)
+    keys = list(seen)
+    lines = []
+    for k in keys:
+        try:
+            lines.append('wf ' + proto.render(treedump.dump(seen[k], comments=True)))
+        except RecursionError:
+            lines.append('wf N')
+    bad = []
+    for i in range(0, len(lines), 200):
+        for k, rep in zip(keys[i:i + 200], drv.ask_many(lines[i:i + 200])):
+            ctx.bump('wf:' + ('T' if rep == 'T' else rep.split(' ')[0]))
+            if rep != 'T':
+                bad.append((k, rep))
+    detail = '%d distinct (text, comments) trees evaluated by drv_rt; %d fail' % (len(keys), len(bad))
+    for (text, wc), rep in bad[:2]:
+        def still(t, wc=wc):
+            try:
+                tr = parse(t, wc)
+            except Exception:
+                return False
+            return drv.ask('wf ' + proto.render(treedump.dump(tr, comments=True))) != 'T'
+        small = shrink.shrink_text(text, still, max_tests=300) if still(text) else text
+        detail += '; %r (with_comments=%s): %s, shrunk %r' % (text[:120], wc, rep, small[:120])
+        # verdict logic: the property judge on the shrunk case decides whether this is a violation with an input
+        res = judge_many(spec, [(m, small, wc, c) for m, c in (('pretty', '  '), ('minify', False), ('minify', True))])
+        handle_results(ctx, spec, res, 'slot-typing-failure')
+    ctx.obligation('slot typing holds on every parsed tree (hypothesis wfVal of pretty_stream_typed / minify*_stream_typed)',
+                   not bad, 'tie', detail)
+
+
 def replay_case(ctx, path):
     import json
     import specclient
